@@ -30,10 +30,19 @@ var tiePool = []string{"1024Ki", "1Mi", "1.048576M", "1048576", "1000k", "1M", "
 var litPool = []string{"Inf", "-inf", "+Infinity", "infinit", "NaN", "nan", "+nan", "1e999", "-5", "-5k", "1_000", "1__0", "0x1p4", "0x10", "0x_1p0",
 	"1e-400", ".", "1.", ".5", "1.2.3", "5ms", "x9G", "-0", "0", "+1", "1e5", "1E2k", "12abc", "abc", "", "1e400M"}
 
+// zero-padded all-digit values of different lengths next to decimals and suffixed spellings of nearby
+// numbers: the numeric order is by VALUE (08 < 9 < 0010 = 10 < 16 < 100), whatever the spelling
+var padPool = []string{"007", "08", "9", "10", "100", "0010", "000", "0", "8", "16", "008", "8.5", "9.0", "0.5",
+	"7", "07", "1e1", "10.0", "0.01k", "1k", "0100", "99", "099", "16.0", "015", "15"}
+
 // pickValues chooses the values of a scenario from one themed pool (or a mix).
 func pickValues(r *hx.Rand) []string {
 	var src []string
-	switch r.Intn(8) {
+	pad := false
+	switch r.Intn(10) {
+	case 8, 9:
+		src = padPool
+		pad = true
 	case 0, 1, 2:
 		src = pool
 	case 3, 4:
@@ -43,9 +52,12 @@ func pickValues(r *hx.Rand) []string {
 	case 6:
 		src = litPool
 	default:
-		src = append(append(append(append([]string(nil), pool...), prefixPool...), tiePool...), litPool...)
+		src = append(append(append(append(append([]string(nil), pool...), prefixPool...), tiePool...), litPool...), padPool...)
 	}
 	nv := 2 + r.Intn(4)
+	if pad {
+		nv += 2 // enough values for a padded one, a shorter one and another spelling in between
+	}
 	vals := make([]string, nv)
 	for i := range vals {
 		vals[i] = hx.Pick(r, src)
